@@ -72,7 +72,7 @@ fn rb(rng: &mut Rng, lo: i64, hi: i64) -> Vec<u8> {
     rng.bytes(n)
 }
 
-fn varint(mut v: u64) -> Vec<u8> {
+pub fn varint(mut v: u64) -> Vec<u8> {
     let mut out = Vec::new();
     loop {
         let b = (v & 0x7f) as u8;
@@ -458,6 +458,33 @@ pub fn gen(rng: &mut Rng, n: usize) -> Vec<Case> {
     out.push(vec![tag("ap"), b"abc".to_vec(), vec![3, 2, 0x90, 3]]); // silent truncation
     out.push(vec![tag("ap"), b"abc".to_vec(), vec![3, 4, 0x90, 3]]); // short: assert fails
     out.push(vec![tag("ap"), b"abc".to_vec(), vec![3, 1, 0]]);
+    // large bases: copies of exactly 0x10000 bytes (size written as 0, or as 00 00 01), offsets above 0xffff
+    {
+        let pat = rng.bytes(41);
+        let base: Vec<u8> = (0..65536 + 300).map(|i| pat[i % 41] ^ (i / 41) as u8).collect();
+        let bl = base.len() as u64;
+        let lists: Vec<Vec<Ins>> = vec![
+            vec![Ins::Copy(0, 0x10000)],
+            vec![Ins::Copy(300, 0x10000), Ins::Insert(b"x".to_vec())],
+            vec![Ins::Copy(65536, 300), Ins::Copy(0xffff, 2), Ins::Copy(0x10000, 1)],
+            vec![Ins::Copy(1, 0xffff), Ins::Copy(0, 0x10001), Ins::Copy(65700, 136)],
+            vec![Ins::Insert(vec![7; 127]), Ins::Copy(0, bl)],
+        ];
+        for (k, is) in lists.iter().enumerate() {
+            for canonical in [true, false] {
+                let mut body = Vec::new();
+                for i in is {
+                    encode_ins(rng, i, canonical, &mut body);
+                }
+                let mut delta = varint(bl);
+                delta.extend_from_slice(&varint(eval_len(is)));
+                delta.extend_from_slice(&body);
+                if k == 0 || canonical {
+                    out.push(vec![tag("ap"), base.clone(), delta]);
+                }
+            }
+        }
+    }
     // ---- deltas made by git ------------------------------------------------------------------
     let pairs = (n / 40).min(1000);
     let mut gd = git_delta_cases(rng, pairs);
